@@ -237,6 +237,8 @@ def _classify_value(eng, fd, pl, bi, line, depth, payload=False):
                     tgt2 = local_target(eng, x2)
                     if tgt2 is not None:
                         subs.append(Gate('deleg', tgt2, [fd.read_op(a) for a in x2['args']], body.path, bi, x2.get('line', line), callee=tgt2, args=x2['args']))
+                    elif (x2.get('callee') or '') in PASS_THROUGH and x2['args'] and x2['args'][0]['k'] in ('copy', 'move') and depth < 10:
+                        subs.append(_classify_value(eng, fd, x2['args'][0]['pl'], bi, x2.get('line', line), depth + 1))      # bool::from(ct_choice) ...
                     else:
                         subs.append(Gate('call', x2.get('callee') or '?', [fd.read_op(a) for a in x2['args']], body.path, bi, x2.get('line', line),
                                          callee=x2.get('callee'), args=x2['args']))
